@@ -176,6 +176,13 @@ def forward(buf: bytes, from_client: bool):
                 elif isinstance(cmd, commands.CloseConnection):
                     closed.append(cmd.connection is ctx.client)
     drive(events.Start())
+    if not from_client:
+        # the layer relays an upstream message only if it answers a client query: prime it with a minimal query
+        # (root name, type A) carrying the id of the response, and discard what that query produced
+        drive(events.DataReceived(ctx.client, bytes(buf[:2]).ljust(2, b"\0") + b"\x01\x00\x00\x01\x00\x00\x00\x00\x00\x00" + b"\x00\x00\x01\x00\x01"))
+        if len(sent) != 1 or sent[0][0] or closed:
+            return {"err": "EOther:priming"}
+        sent.clear()
     drive(events.DataReceived(ctx.client if from_client else ctx.server, buf))
     if len(sent) == 1 and sent[0][0] == (not from_client) and not closed:
         return {"ok": hx(sent[0][1])}
